@@ -15,6 +15,8 @@ pub enum J {
     /// "full" float: arbitrary finite f64 by bit pattern
     Ff(u64),
     S(String),
+    /// a long string value (length, seed): metadata larger than typical codec / stream buffers
+    Big(u32, u8),
     A(Vec<J>),
     O(Vec<(String, J)>),
 }
@@ -42,6 +44,16 @@ impl J {
                 Number::from_f64(f).map_or(Value::Null, Value::Number)
             }
             J::S(s) => Value::String(s.clone()),
+            J::Big(n, seed) => {
+                let words = ["tile", "layer", "water", "road", "\u{e9}t\u{e9}", "\"q\"", "\\", "\u{1F5FA}"];
+                let mut r = crate::engine::Sm(u64::from(*seed) + 17);
+                let mut out = String::with_capacity(*n as usize + 8);
+                while out.len() < *n as usize {
+                    out.push_str(words[r.below(words.len() as u64) as usize]);
+                    out.push(' ');
+                }
+                Value::String(out)
+            }
             J::A(a) => Value::Array(a.iter().map(J::to_value).collect()),
             J::O(o) => {
                 let mut m = Map::new();
@@ -93,6 +105,7 @@ fn leaf(full_floats: bool) -> BoxedStrategy<J> {
         2 => (-999_999_999_999_999i64..=999_999_999_999_999, -22i8..=22).prop_map(|(m, e)| J::Fs(m, e)),
         ff => any::<u64>().prop_filter_map("finite", |b| if f64::from_bits(b).is_finite() { Some(J::Ff(b)) } else { None }),
         3 => key().prop_map(J::S),
+        1 => (prop_oneof![Just(33_000u32), Just(70_000), Just(300_000)], any::<u8>()).prop_map(|(n, s)| J::Big(n, s)),
     ]
     .boxed()
 }
